@@ -188,7 +188,7 @@ func checkC15(w *World, r *Report) {
 		}, "TypeName(delivery's msg)"},
 	}
 	maps := map[ssa.Value]string{}
-	var lookups []*ssa.Function
+	var lookups, lookups4 []*ssa.Function
 	deliverRoots := map[string]bool{}
 	for _, sp := range specs {
 		key := fmt.Sprintf("%s:%s<->%s", fname(W), sp.index, sp.table)
@@ -203,6 +203,16 @@ func checkC15(w *World, r *Report) {
 		var call *ssa.Call
 		if ok && ex.Index == 0 {
 			call, _ = ex.Tuple.(*ssa.Call)
+		}
+		if call != nil && call.Call.StaticCallee() != nil && len(call.Call.Args) == 4 && (w.inMod[call.Call.StaticCallee()] || w.inMod[origin(call.Call.StaticCallee())]) {
+			// one helper for all tables: lookup(m, key, table, value) with the key made by the caller
+			if okG, detail := lookup4(w, r, g, call, tv, sp, maps, deliverRoots, iv); okG {
+				lookups4 = append(lookups4, call.Call.StaticCallee())
+				r.OK("C15.R1", key, what, w.pos(call.Pos()))
+			} else {
+				r.Fail("C15.R1", key, what, w.pos(call.Pos()), detail)
+			}
+			continue
 		}
 		if call == nil || call.Call.StaticCallee() == nil || !w.inMod[call.Call.StaticCallee()] || len(call.Call.Args) != 3 {
 			// no helper: the idiom written out in the loop
@@ -295,6 +305,13 @@ func checkC15(w *World, r *Report) {
 		}
 		seenL[L] = true
 		checkLookupHelper(w, r, L)
+	}
+	for _, L := range lookups4 {
+		if seenL[origin(L)] {
+			continue
+		}
+		seenL[origin(L)] = true
+		checkLookupHelper4(w, r, L)
 	}
 
 	// R5 no holes
@@ -2086,4 +2103,171 @@ func dialsPeer(w *World, fn *ssa.Function) bool {
 		}
 	}
 	return false
+}
+
+// lookup4: one call `idx, table = lookup(m, key, table, value)` of the four-argument lookup helper (the key is made by
+// the caller). Checks what the three-argument form checks, plus the key/value agreement; emits C15.R3/R4 for PID tables.
+func lookup4(w *World, r *Report, g *FG, call *ssa.Call, tv ssa.Value, sp tableSpec, maps map[ssa.Value]string, deliverRoots map[string]bool, iv ssa.Value) (bool, string) {
+	args := call.Call.Args
+	// the table shipped = phi over (initial empty table, second result of this call)
+	var leaves []ssa.Value
+	phiLeaves(tv, map[ssa.Value]bool{}, &leaves)
+	okTab := false
+	for _, l := range leaves {
+		if e, ok := l.(*ssa.Extract); ok {
+			if e.Tuple == ssa.Value(call) && e.Index == 1 {
+				okTab = true
+			} else {
+				return false, "Envelope." + sp.table + " also receives " + w.pathOf(l)
+			}
+		}
+	}
+	if !okTab {
+		return false, "the table shipped as Envelope." + sp.table + " is not the one the index was computed against"
+	}
+	var argLeaves []ssa.Value
+	phiLeaves(args[2], map[ssa.Value]bool{}, &argLeaves)
+	okArg := false
+	for _, l := range argLeaves {
+		if e, ok := l.(*ssa.Extract); ok && e.Tuple == ssa.Value(call) && e.Index == 1 {
+			okArg = true
+		}
+	}
+	if _, isMap := args[0].(*ssa.MakeMap); !isMap || !okArg {
+		return false, "the lookup map is not a per-batch map, or the table is not threaded through the loop"
+	}
+	if other, dup := maps[args[0]]; dup {
+		return false, "the lookup map is shared with " + other + ": indices of two tables are mixed"
+	}
+	vp, kp := w.pathOf(args[3]), w.pathOf(args[1])
+	if !sp.keyWant(vp) {
+		return false, "the table receives " + vp + " instead of " + sp.keyDesc
+	}
+	isPID := sp.table != "TypeNames"
+	if isPID {
+		want := "lit:pidKey{address=" + vp + ".Address,id=" + vp + ".ID}"
+		r.Check(kp == want, "C15.R4", "remote.lookupPIDs:key", "the PID table key keeps address and id apart", w.pos(call.Pos()),
+			"PIDs are keyed by "+kp+": two PIDs whose address+id concatenate equally share a slot, the second is delivered to the first")
+		if kp != want {
+			return false, "the key " + kp + " is not made from the address and id of the PID that enters the table (" + vp + ")"
+		}
+		// a nil PID: the call is skipped and the index field keeps its zero value — a valid index (the known D8a shape)
+		_, nonNil := w.nilEdges(g, vp)
+		guarded := len(nonNil) > 0 && g.OnlyVia(nonNil, g.idx[call])
+		if sp.table == "Senders" {
+			r.Check(!guarded, "C15.R3", "remote.lookupPIDs:nil-index-collides", "a nil PID is encoded as an index that cannot name a table entry", w.pos(call.Pos()),
+				"a message without sender gets index 0, a valid index as soon as another message of the batch has a sender: it arrives with that sender")
+		}
+	} else if kp != vp {
+		return false, "the type-name table is keyed by " + kp + " but receives " + vp
+	}
+	if i := strings.Index(vp, "assert<*remote.streamDeliver>("); i >= 0 {
+		deliverRoots[vp[i:strings.LastIndex(vp, ".")]] = true
+	}
+	maps[args[0]] = sp.table
+	_ = iv
+	return true, ""
+}
+
+// checkLookupHelper4: lookup(m, key, table, value): hit -> (m[key], table); miss -> m[key] = len(m) read before the insert,
+// (that index, append(table, value)); nothing else.
+func checkLookupHelper4(w *World, r *Report, L *ssa.Function) {
+	restore := w.noCtx()
+	defer restore()
+	g := w.FG(L)
+	site := w.fnPos(L)
+	name := "remote.lookupPIDs"
+	var lk *ssa.Lookup
+	var mu *ssa.MapUpdate
+	var app *ssa.Call
+	for _, in := range g.ins {
+		switch x := in.(type) {
+		case *ssa.Lookup:
+			if x.CommaOk && w.pathOf(x.X) == "P0" {
+				lk = x
+			}
+		case *ssa.MapUpdate:
+			if w.pathOf(x.Map) == "P0" {
+				mu = x
+			}
+		case *ssa.Call:
+			if args, ok := isBuiltinCall(x, "append"); ok && w.pathOf(args[0]) == "P2" {
+				app = x
+			}
+		}
+	}
+	what := "miss: m[key] = len(m) (read before the insert) and the item is appended; hit: stored index, table unchanged"
+	if lk == nil || mu == nil || app == nil || len(L.Params) != 4 {
+		r.Unknown("C15.R2", name+":shape", what, site, "lookup / insert / append not found (unrecognised idiom)")
+		r.Unknown("C15.R2", "remote.lookupTypeName:shape", what, site, "lookup / insert / append not found (unrecognised idiom)")
+		return
+	}
+	hit, miss := g.CondEdges(func(v ssa.Value) (bool, bool) {
+		if e, ok := v.(*ssa.Extract); ok && e.Tuple == ssa.Value(lk) && e.Index == 1 {
+			return true, true
+		}
+		return false, false
+	})
+	ok := len(miss) > 0 && len(hit) > 0
+	detail := ""
+	mun, appn := g.idx[mu], g.idx[app]
+	switch {
+	case !ok:
+		detail = "no branch on the comma-ok result of the lookup"
+	case !g.OnlyVia(miss, mun) || !g.OnlyVia(miss, appn):
+		ok, detail = false, "the insert / append is not confined to the miss edge: a repeated key gets a second table entry, indices drift from the table"
+	case w.pathOf(lk.Index) != "P1" || w.pathOf(mu.Key) != "P1":
+		ok, detail = false, "looked-up key "+w.pathOf(lk.Index)+" / inserted key "+w.pathOf(mu.Key)+" is not the key parameter"
+	case w.pathOf(mu.Value) != "conv<int32>(len(P0))" && w.pathOf(mu.Value) != "len(P0)":
+		ok, detail = false, "the new index is "+w.pathOf(mu.Value)+", not len(map)"
+	}
+	if ok {
+		if lc, isI := stripConv(mu.Value).(ssa.Instruction); isI {
+			if ok2, _ := g.Never(mun, setOf(len(g.ins), g.idx[lc])); !ok2 || !g.Before(setOf(len(g.ins), g.idx[lc]), mun) {
+				ok, detail = false, "len(map) is read after the insertion: indices start at 1 and the last one is out of range"
+			}
+		}
+	}
+	if ok {
+		if vals := w.appended(app); len(vals) != 1 || w.pathOf(vals[0]) != "P3" {
+			ok, detail = false, "something else than the value parameter is appended to the table"
+		}
+	}
+	if ok {
+		ap := w.pathOf(app)
+		for _, x := range g.returns {
+			rs := g.ins[x].(*ssa.Return).Results
+			p0, p1 := w.pathOf(rs[0]), w.pathOf(rs[1])
+			switch {
+			case g.OnlyVia(hit, x):
+				if p0 != w.pathOf(lk)+"#0" || p1 != "P2" {
+					ok, detail = false, "on a hit ("+p0+", "+p1+") is returned instead of the stored index and the unchanged table"
+				}
+			case g.OnlyVia(miss, x):
+				if p0 != w.pathOf(mu.Value) || p1 != ap {
+					ok, detail = false, "on a miss ("+p0+", "+p1+") is returned instead of the new index and the extended table"
+				}
+				// the same length that was stored: read before the insertion (a second len(m) after it is one more)
+				if lc, isI := stripConv(rs[0]).(ssa.Instruction); isI && stripConv(rs[0]) != stripConv(mu.Value) {
+					if !g.Before(setOf(len(g.ins), g.idx[lc]), mun) {
+						ok, detail = false, "the returned index is a length read after the insertion: it is one more than the index stored in the map"
+					}
+				}
+				if !g.Before(setOf(len(g.ins), mun), x) {
+					ok, detail = false, "a miss can return without inserting the key"
+				}
+			default:
+				want0a := "phi(" + w.pathOf(lk) + "#0|" + w.pathOf(mu.Value) + ")"
+				want0b := "phi(" + w.pathOf(mu.Value) + "|" + w.pathOf(lk) + "#0)"
+				if p0 != want0a && p0 != want0b {
+					ok, detail = false, "returned index is "+p0
+				}
+				if p1 != "phi(P2|"+ap+")" && p1 != "phi("+ap+"|P2)" {
+					ok, detail = false, "returned table is "+p1
+				}
+			}
+		}
+	}
+	r.Check(ok, "C15.R2", name+":shape", what, site, detail)
+	r.Check(ok, "C15.R2", "remote.lookupTypeName:shape", what, site, detail)
 }
